@@ -219,6 +219,22 @@ class Extract(object):
                         if m is not None:
                             out.append((m, f))
                 return out
+            sa = self._sign_assembly(bv, depth)
+            if sa is not None:
+                (full, signs) = sa
+                out = []
+                for (c, f) in self.cases(full, depth + 1):
+                    for (c2, neg_) in signs:
+                        m = _merge_conds([c, c2])
+                        if m is not None:
+                            out.append((m, -f if neg_ else f))
+                return out
+            if len(bv) >= 2 and bv[-1] == ('c', 1, 1):
+                # [magnitude bits ++ 1]: the negative of [magnitude bits ++ 0]
+                return [(c, -f) for (c, f) in self.cases(T.cat(T.slice_(bv, 0, T.width(bv) - 1), T.const(1, 0)), depth + 1)]
+            cf = self._cofactor_cases(bv, depth)
+            if cf is not None:
+                return cf
             inner = T.canon(T.fneg(bv))
             ti = T.single_term(inner)
             if ti is not None and (ti.kind == 'arg' or ti.name in self.ARITH or ti.name == 'sel' or True):
@@ -277,6 +293,202 @@ class Extract(object):
             self.conds[ck] = t.ops[0]
             return out
         return [((), RF(p_atom(self.atom(bv))))]
+
+    def _own_sign(self, P, w):
+        """P holds the low w-1 bits of a value: (the full value, its own sign bit), or None"""
+        P = T.canon(P)
+        if T.is_const(P):
+            return T.cat(P, T.const(1, 0)), T.const(1, 0)
+        if len(P) == 1 and P[0][0] == 's':
+            (_, t, lo, ww) = P[0]
+            if lo == 0 and ww == w - 1 and t.width == w:
+                full = (('s', t, 0, w),)
+                return full, T.slice_(full, w - 1, 1)
+            if lo == 0 and ww == t.width == w - 1 and t.name == 'sel':
+                a, b = self._own_sign(t.ops[1], w), self._own_sign(t.ops[2], w)
+                if a is not None and b is not None:
+                    return T.sel(t.ops[0], a[0], b[0]), T.sel(t.ops[0], a[1], b[1])
+        return None
+
+    CMPS = ('oeq', 'one', 'olt', 'ole', 'ogt', 'oge', 'ueq', 'une', 'ult', 'ule', 'ugt', 'uge')
+
+    def _bit_real(self, bv, depth=0):
+        """cases [(conds, 0/1)] of a one-bit term for the REAL reading of the result: the sign bit of a square root is 0
+        (it is set only for sqrt(-0) = -0, the same real number, and for NaN, which is not a real result); a floating
+        comparison is a case split; None if some part stays open"""
+        bv = T.canon(bv)
+        if T.is_const(bv):
+            return [((), T.const_val(bv) & 1)]
+        if len(bv) != 1 or bv[0][0] != 's' or depth > 12:
+            return None
+        (_, t, lo, ww) = bv[0]
+        if ww != 1:
+            return None
+        if t.name.startswith(('sqrt', 'call:llvm.sqrt', 'x86.sqrt', 'llvm.sqrt', 'x86.sse.sqrt', 'x86.sse2.sqrt', 'x86.avx.sqrt')) and lo == t.width - 1:
+            return [((), 0)]
+        if t.width != 1:
+            return None
+        if t.name.startswith('f') and t.name[1:] in self.CMPS:
+            d = self.decide(bv, depth)
+            if d is not None:
+                return [((), int(d))]
+            ck = T._key(bv)
+            self.conds = getattr(self, 'conds', {})
+            self.conds[ck] = bv
+            return [(((ck, True),), 1), (((ck, False),), 0)]
+        if t.name in ('and', 'or', 'xor', 'sel') or t.name == 'not':
+            subs = [self._bit_real(o, depth + 1) for o in t.ops]
+            if any(x is None for x in subs):
+                # and(0, ?) / or(1, ?) with an unconditional known operand
+                known = [x for x in subs if x is not None and len(x) == 1 and x[0][0] == ()]
+                if t.name == 'and' and any(x[0][1] == 0 for x in known):
+                    return [((), 0)]
+                if t.name == 'or' and any(x[0][1] == 1 for x in known):
+                    return [((), 1)]
+                return None
+            out = {}
+            for combo in _product(subs):
+                cm = _merge_conds([c for (c, v) in combo])
+                if cm is None:
+                    continue
+                vs = [v for (c, v) in combo]
+                v = {'and': lambda: vs[0] & vs[1], 'or': lambda: vs[0] | vs[1], 'xor': lambda: vs[0] ^ vs[1], 'not': lambda: 1 - vs[0],
+                     'sel': lambda: vs[1] if vs[0] else vs[2]}[t.name]()
+                out[cm] = v
+            if len(out) > 16:
+                return None
+            vals = set(out.values())
+            if len(vals) == 1:
+                return [((), vals.pop())]
+            return sorted(out.items())
+        return None
+
+    @staticmethod
+    def _xor_flat(bv):
+        bv = T.canon(bv)
+        t = T.single_term(bv)
+        if t is not None and t.name == 'xor' and t.width == 1:
+            return Extract._xor_flat(t.ops[0]) + Extract._xor_flat(t.ops[1])
+        return [bv]
+
+    def _sign_assembly(self, bv, depth=0):
+        """[magnitude bits of V ++ (sign of V) xor s] with s decided by _bit_real: [(conds, V, negate?)]"""
+        w = T.width(bv)
+        if w < 2:
+            return None
+        own = self._own_sign(T.slice_(bv, 0, w - 1), w)
+        if own is None:
+            return None
+        full, sg = own
+        full = T.canon(full)
+        if T.single_term(full) is None and not T.is_const(full) and self._refuse_select(full) is None:
+            return None
+        if T._key(full) == T._key(T.canon(bv)):
+            return None
+        ops = {}
+        for x in self._xor_flat(T.slice_(bv, w - 1, 1)) + self._xor_flat(sg):
+            k = T._key(x)
+            if k in ops:
+                del ops[k]
+            else:
+                ops[k] = x
+        acc = [((), 0)]
+        for x in ops.values():
+            r = self._bit_real(x, depth)
+            if r is None:
+                return None
+            nxt = {}
+            for (c1, v1) in acc:
+                for (c2, v2) in r:
+                    cm = _merge_conds([c1, c2])
+                    if cm is not None:
+                        nxt[cm] = v1 ^ v2
+            acc = sorted(nxt.items())
+            if len(acc) > 16:
+                return None
+        return full, acc
+
+    SQRT_NAMES = ('sqrt', 'call:llvm.sqrt', 'x86.sqrt', 'llvm.sqrt', 'x86.sse.sqrt', 'x86.sse2.sqrt', 'x86.avx.sqrt')
+
+    def _first_condition(self, bv, depth=0):
+        """a floating comparison that steers a select / sign logic among the pieces of bv (not inside arithmetic)"""
+        for p in bv:
+            if p[0] == 'r':
+                c = self._first_condition((p[1],), depth + 1)
+                if c is not None:
+                    return c
+            if p[0] != 's':
+                continue
+            t = p[1]
+            if t.width == 1 and t.name.startswith('f') and t.name[1:] in self.CMPS:
+                return t
+            if t.name == 'sel' and depth < 8:
+                for o in t.ops:
+                    c = self._first_condition(T.canon(o), depth + 1)
+                    if c is not None:
+                        return c
+            if t.width == 1 and t.name in ('and', 'or', 'xor', 'not') and depth < 8:
+                for o in t.ops:
+                    c = self._first_condition(T.canon(o), depth + 1)
+                    if c is not None:
+                        return c
+        return None
+
+    def _cofactor(self, bv, ct, nct, val, memo, depth=0):
+        """bv with the comparison term ct := val (its negation nct := 1 - val) and the sign bit of a square root := 0
+        (REAL reading, see _bit_real); only select / bit logic is descended into, arithmetic operands are left alone"""
+        out = []
+        for p in T.canon(bv):
+            if p[0] in 'cu':
+                out.append((p,))
+            elif p[0] == 'r':
+                out.append(T.rep(self._cofactor((p[1],), ct, nct, val, memo, depth + 1), p[2]))
+            else:
+                (_, t, lo, w) = p
+                if t.name.startswith(self.SQRT_NAMES) and lo == t.width - 1 and w == 1:
+                    out.append(T.const(1, 0))
+                    continue
+                if t.uid not in memo:
+                    if t is ct:
+                        nb = T.const(1, val)
+                    elif nct is not None and t is nct:
+                        nb = T.const(1, 1 - val)
+                    elif (t.name == 'sel' or (t.width == 1 and t.name in ('and', 'or', 'xor', 'not'))) and depth < 24:
+                        ops = [self._cofactor(o, ct, nct, val, memo, depth + 1) for o in t.ops]
+                        nb = T.op(t.name, t.width, *ops)
+                    else:
+                        nb = (('s', t, 0, t.width),)
+                    memo[t.uid] = T.canon(nb)
+                out.append(T.slice_(memo[t.uid], lo, w))
+        return T.canon(T.cat(*out))
+
+    def _cofactor_cases(self, bv, depth):
+        """Shannon expansion of a bit-level assembly over one of its steering comparisons"""
+        ct = self._first_condition(bv)
+        if ct is None or depth > 150:
+            return None
+        cbv = (('s', ct, 0, 1),)
+        nb = T._neg_cmp(ct)
+        nct = T.single_term(T.canon(nb)) if nb is not None else None
+        arms = []
+        for val in (1, 0):
+            a = self._cofactor(bv, ct, nct, val, {})
+            if T._key(a) == T._key(bv):
+                return None
+            arms.append(a)
+        d = self.decide(cbv, depth)
+        if d is not None:
+            return self.cases(arms[0] if d else arms[1], depth + 1)
+        ck = T._key(cbv)
+        self.conds = getattr(self, 'conds', {})
+        self.conds[ck] = cbv
+        out = []
+        for (arm, taken) in ((arms[0], True), (arms[1], False)):
+            for (c, f) in self.cases(arm, depth + 1):
+                m = _merge_conds([c, ((ck, taken),)])
+                if m is not None:
+                    out.append((m, f))
+        return out
 
     @staticmethod
     def _refuse_select(bv):
